@@ -116,8 +116,10 @@ def shadowed(repo: Repo, arms: List[Arm], arm: Arm) -> bool:
 def rule_translate(repo: Repo, rid: str = "C02.translate") -> RuleResult:
     r = RuleResult(rid, "each operand class of the data model is translated by an arm that attaches its result to the grounded condition, or is rejected",
                    "literals, numeric conditions, nested and quantified conditions all take part in the instantiated precondition")
+    dead_universal = universal_path_dead(repo)
     for spec in ("GroundedPrecondition._ground", "GroundedPrecondition._ground_universal_condition"):
         f = repo.func(spec)
+        latent = dead_universal and spec.endswith("_ground_universal_condition")
         p = L.prov(repo, f)
         loops = [n for n in ast.walk(f.node) if isinstance(n, ast.For) and isinstance(n.target, ast.Name)
                  and any("attr:operands" in x for x in p.trace(n.iter))]
@@ -168,8 +170,8 @@ def rule_translate(repo: Repo, rid: str = "C02.translate") -> RuleResult:
                 elif else_arm is not None and attaches(else_arm.body):
                     r.ok({"function": f.qn, "class": cls, "arm": "else -> attach"})
                 else:
-                    r.fail(Finding(rid, f, "arm:else", f"an operand of class {cls} matches no arm and there is no rejecting else: it is silently left out "
-                                   f"of the grounded condition", node=loop, latent=False),
+                    r.fail(Finding(rid, f, f"arm:else:{cls}", f"an operand of class {cls} matches no arm and there is no rejecting else: it is silently left out "
+                                   f"of the grounded condition", node=loop, latent=latent),
                            {"function": f.qn, "class": cls, "arm": None})
                 continue
             if attaches(arm.body) or rejects(arm.body):
@@ -177,9 +179,25 @@ def rule_translate(repo: Repo, rid: str = "C02.translate") -> RuleResult:
             else:
                 r.fail(Finding(rid, f, f"arm:{cls}", f"the arm isinstance({var}, {'/'.join(arm.classes)}) handles operands of class {cls} but never attaches a "
                                f"translated condition to the output (no add_condition on {sorted(outputs)}) and does not raise: the condition is ignored",
-                               node=arm.node), {"function": f.qn, "class": cls, "arm": "/".join(arm.classes)})
+                               node=arm.node, latent=latent), {"function": f.qn, "class": cls, "arm": "/".join(arm.classes)})
     r.require_sites(8)
     return r
+
+
+def universal_path_dead(repo: Repo) -> bool:
+    """is the evaluator arm that handles UniversalPrecondition shadowed by an earlier superclass arm (dead code today)?"""
+    f = repo.func_opt("GroundedPrecondition._is_condition_applicable")
+    if f is None:
+        return False
+    p = L.prov(repo, f)
+    loops = [n for n in ast.walk(f.node) if isinstance(n, ast.For) and isinstance(n.target, ast.Name) and any("attr:operands" in x for x in p.trace(n.iter))]
+    if len(loops) != 1:
+        return False
+    arms, _ = isinstance_arms(loops[0].body, loops[0].target.id)
+    for a in arms:
+        if "UniversalPrecondition" in a.classes:
+            return shadowed(repo, arms, a)
+    return True
 
 
 def rule_literal(repo: Repo) -> RuleResult:
@@ -287,6 +305,7 @@ def rule_foldid(repo: Repo) -> RuleResult:
         folds = _fold_sites(repo, f)
         if not folds:
             raise AnalysisError(f"{spec}: accumulator fold not recognised")
+        latent = spec.endswith("_validate_universal_precondition") and universal_path_dead(repo)
         acc = folds[0][1]
         r.site(f"{f.qn} [initial value of {acc}]")
         # operator dynamic?
@@ -309,7 +328,7 @@ def rule_foldid(repo: Repo) -> RuleResult:
             r.ok({"function": f.qn, "initial_value": unparse(init.value), "depends_on_operator": True})
         else:
             r.fail(Finding("C02.foldid", f, "fold-init:or", f"the accumulator starts from {unparse(init.value, 60)} whatever the operator is: for 'or' the "
-                           f"start value must be False, here a disjunction is true as soon as the (in)equalities hold", node=init))
+                           f"start value must be False, here a disjunction is true as soon as the (in)equalities hold", node=init, latent=latent))
     r.require_sites(2)
     return r
 
